@@ -54,7 +54,7 @@ func (e *Engine) modelCall(st *State, fn *ssa.Function, args []Val, site ssa.Ins
 	if e.rangeModel(st, fn, args, site, k) {
 		return true
 	}
-	if strings.Contains(fn.String(), "skipmap.") || strings.Contains(fn.String(), "skipset.") {
+	if strings.Contains(fn.String(), "skipmap.") || strings.Contains(fn.String(), "skipset.") || strings.HasPrefix(full, "(*sync.Map).") {
 		if e.collectionModel(st, fn, args, site, k) {
 			return true
 		}
